@@ -457,6 +457,11 @@ impl ModuleDesc {
     let decl = self.lang.is_declaration();
     for (i, it) in self.items.iter().enumerate() {
       if let Some((ts_types, t)) = &it.types_pragma {
+        if i % 2 == 1 {
+          // an ordinary comment above the pragma: the pragma stays the last
+          // leading comment of the statement
+          out.push_str(&format!("// types for item {}\n", i));
+        }
         if *ts_types {
           out.push_str(&format!("// @ts-types=\"{}\"\n", t));
         } else {
